@@ -1,6 +1,6 @@
 """C15 -- block partitions behave as orthogonal coordinate-block projections."""
 import ast
-from ..model import AnalysisError, src, loc, call_name, dotted, params_of, norm_stmt, is_const, get_arg, qualname
+from ..model import AnalysisError, src, loc, call_name, dotted, params_of, norm_stmt, is_const, get_arg, qualname, iter_base
 from ..nf import Evaluator, Rat, PointV, ExprV, ConsV, TupleV, Opaque, SortError
 from ..core import Ctx
 from .. import flow
@@ -240,8 +240,10 @@ def r_registered(ctx):
     msg = "add_partition_constraints is not called in a loop over the partition registry"
     if len(calls) == 1:
         lp = flow.in_loop(common.stmt_of(calls[0]))
-        if lp is not None and dotted(lp.iter) == "BlockPartition.list_of_partitions" and isinstance(lp.target, ast.Name) \
-                and dotted(calls[0].func.value) == lp.target.id and not flow.conditions_guarding(lp):
+        base_it, enum = iter_base(lp.iter) if lp is not None else (None, False)
+        tgt = (lp.target.elts[1] if enum and isinstance(lp.target, ast.Tuple) and len(lp.target.elts) == 2 else lp.target) if lp is not None else None
+        if lp is not None and dotted(base_it) == "BlockPartition.list_of_partitions" and isinstance(tgt, ast.Name) \
+                and dotted(calls[0].func.value) == tgt.id and not flow.conditions_guarding(lp):
             ok, msg = True, "the relations of every registered partition are generated at each solve"
     ctx.ob("R-PARTREG", "PEP.%s::generate for every registered partition" % root.name, ok, msg, loc(root, calls[0] if calls else root))
 
